@@ -239,8 +239,16 @@ def run_shard(spec, res):
                         '%d: %s' % (c, step.rname(), step.resp.status,
                                     r.status, r.brief()),
                         step.witness(probe=body))
+            legacy = histrun.legacy_injector(
+                svc, names, rng, on_migrated=lambda cid: mon.expect.update(
+                    {cid: {'project': {pp}, 'user': {pu}, 'type': {None}}}))
+
+            def after(step, res_):
+                probe(step, res_)
+                legacy(step, res_)
+            after.mutates = True
             histrun.run_history(svc, gen, spec['steps'], [mon.step], res,
-                                hist_id=i, after_step=probe)
+                                hist_id=i, after_step=after)
             res.count('histories')
         res.sample({'history': i, 'placeholders': [pp, pu],
                     'last_requests': svc.client.history(4)})
